@@ -180,6 +180,7 @@ func (ex *Exec) havocLoop(st *State, fr *Frame, l *Loop) {
 	cells := map[*ssa.Alloc]bool{}
 	ghosts := map[string]bool{}
 	ex.bodyEffects(fr.fn, l, fr, mods, cells, ghosts, 0)
+	ex.lastLoopMods, ex.lastLoopCells, ex.lastLoopGhosts = mods, cells, ghosts
 	if mods["*"] {
 		ex.havocAll(st)
 	} else {
@@ -378,4 +379,91 @@ func rangedValue(phi *ssa.Phi) ssa.Value {
 		}
 	}
 	return nil
+}
+
+// recordLoopHead remembers the state right after the loop-head havoc, so that the back edge can
+// check that the body changed nothing outside the inferred write set (the inference is then
+// an obligation, not an assumption).
+func (ex *Exec) recordLoopHead(st *State, fr *Frame, ent *loopEntry) {
+	ent.headHeaps = map[string]Term{}
+	for n, t := range st.heaps {
+		ent.headHeaps[n] = t
+	}
+	ent.headCells = map[*ssa.Alloc]string{}
+	for _, f := range st.frames {
+		for a, v := range f.cells {
+			if t, ok := v.(Term); ok {
+				ent.headCells[a] = t.S
+			}
+		}
+	}
+	ent.headGhost = map[string]string{}
+	for n, g := range st.ghosts {
+		ent.headGhost[n] = g.S
+	}
+	ent.headAlloc = st.alloc
+	ent.mods, ent.modCells, ent.modGhosts = ex.lastLoopMods, ex.lastLoopCells, ex.lastLoopGhosts
+}
+
+// checkLoopWrites runs at a back edge: every heap, cell or ghost whose symbolic value differs
+// from the loop-head value must be in the write set the havoc used.
+func (ex *Exec) checkLoopWrites(st *State, site ssa.Instruction, ent *loopEntry) {
+	if ent == nil || ent.headHeaps == nil || ent.mods == nil || ent.mods["*"] {
+		return
+	}
+	names := make([]string, 0, len(st.heaps))
+	for n := range st.heaps {
+		names = append(names, n)
+	}
+	sort.Strings(names)
+	for _, n := range names {
+		cur := st.heaps[n]
+		head, had := ent.headHeaps[n]
+		if had && head.S == cur.S {
+			continue
+		}
+		wr, listed := ent.mods[n]
+		if listed && wr {
+			continue
+		}
+		if !had {
+			// heap first touched inside the body: compare with its untouched version
+			srt := st.hsorts[n]
+			head = ex.heapConst(n, srt, st.epoch, st.hver[n])
+			if head.S == cur.S {
+				continue
+			}
+		}
+		ks, _, ok := arrayParts(cur.Sort)
+		if !ok || ks != SInt {
+			if !listed {
+				ex.oblige(st, "havoc", "loop-writes."+n, site, tFalse, "the loop body changes "+n+", which the inferred write set of the loop does not contain")
+			}
+			continue
+		}
+		// not listed, or listed as allocation-only: objects that existed at the loop head are unchanged
+		goal := mk(SBool, fmt.Sprintf("(forall ((r Int)) (! (=> (< r %s) (= (select %s r) (select %s r))) :pattern ((select %s r))))", ent.headAlloc.S, cur.S, head.S, cur.S))
+		ex.oblige(st, "havoc", "loop-writes."+n, site, goal, "the loop body may only allocate in "+n+" (inferred write set): objects existing at the loop head are unchanged")
+	}
+	for _, f := range st.frames {
+		for a, v := range f.cells {
+			t, ok := v.(Term)
+			if !ok {
+				continue
+			}
+			if h, had := ent.headCells[a]; had && h != t.S && !ent.modCells[a] {
+				ex.oblige(st, "havoc", "loop-writes.cell."+a.Comment, site, tFalse, "the loop body changes local "+a.Comment+", which the inferred write set of the loop does not contain")
+			}
+		}
+	}
+	gn := make([]string, 0, len(st.ghosts))
+	for n := range st.ghosts {
+		gn = append(gn, n)
+	}
+	sort.Strings(gn)
+	for _, n := range gn {
+		if h, had := ent.headGhost[n]; had && h != st.ghosts[n].S && !ent.modGhosts[n] && !strings.HasPrefix(n, "iter$") {
+			ex.oblige(st, "havoc", "loop-writes.ghost."+n, site, tFalse, "the loop body changes ghost "+n+", which the inferred write set of the loop does not contain")
+		}
+	}
 }
